@@ -4,6 +4,7 @@
 -/
 import Cpf.Query.Listener
 import Cpf.Query.Cli
+import Cpf.Lemmas.LexLayoutQ
 import Cpf.Query.WF
 import Cpf.Query.Console
 import Cpf.Query.Output
@@ -153,6 +154,8 @@ def handle (fields : List String) : List String :=
   | ["lex", q] =>
       let (ts, errs) := lex lexRules q.toList
       toString errs :: ts.flatMap (fun t => [t.kind, t.text])
+  | ["relayout", a, b] =>
+      [toString (Cpf.Lemmas.LexLayoutQ.relayoutB (a.length + b.length + 2) a.toList b.toList)]
   | ["accept", q] =>
       match lex lexRules q.toList with
       | (ts, 0) => [if accepts grammar (fuelFor ts) startRule ts then "accept" else "reject"]
